@@ -41,6 +41,24 @@ fn c02(r: &mut Rng, i: u64, p: &HashMap<String, String>) -> Vec<Value> {
     f.stray = r.chance(1, 3);
     f.sup = r.chance(1, 3);
     f.odd_href = r.chance(1, 2);
+    // a shape of its own: prefixed blocks whose content has no width at all (an empty table, an image without alt, an
+    // empty inline element, a lone marker), nested, at widths the prefixes alone use up
+    if r.chance(1, 25) {
+        fn hollow(r: &mut Rng, depth: u32) -> String {
+            let inner = if depth < 3 && r.chance(1, 2) { hollow(r, depth + 1) } else {
+                (*r.pick(&["<table><tr><td></td></tr></table>", "<table><tr><td></td><td></td></tr><tr><td></td></tr></table>", "<img src=\"x\">", "<span id=\"m\"></span>",
+                           "<table><tr><td><img src=\"x\"></td></tr></table>", "<em></em>", "<table></table>", "<hr>", "<p></p>"])).to_string() };
+            let extra = if r.chance(1, 4) { "<table><tr><td></td></tr></table>" } else { "" };
+            match r.below(6) { 0 => format!("<blockquote>{}{}</blockquote>", inner, extra), 1 => format!("<ul><li>{}{}</li></ul>", inner, extra), 2 => format!("<ol start=\"{}\"><li>{}</li></ol>", r.pick(&[1, 9, 99, -5]), inner),
+                               3 => format!("<h{}>{}</h{}>", 1 + depth, inner, 1 + depth), 4 => format!("<dl><dd>{}</dd></dl>", inner), _ => format!("<dl><dt>{}</dt><dd>{}</dd></dl>", extra, inner) }
+        }
+        let html = format!("<html><body>{}{}</body></html>", hollow(r, 0), if r.chance(1, 3) { "<p>a</p>" } else { "" });
+        let deco = deco_std(r);
+        let mut ops = opts_c02(r);
+        if r.chance(1, 3) { ops.push(json!(["min_wrap", r.below(3)])); }
+        let route = route_for(deco, r);
+        return vec![json!({"id": id("c02", i), "runs": [run(&html, r.range(1, 8), cfg(deco, ops), route)]})];
+    }
     let mut g = G::new(r, f);
     let body = g.flow(0);
     let html = doc_html(&body);
